@@ -37,7 +37,7 @@ AMakeTrainable(k, x, vn) == "train" \in ACTS /\ MakeTrainable(k, x, vn) /\ Aux
 ADeleteTrainables(vn) == "deltrain" \in ACTS /\ DeleteTrainables(vn) /\ Aux
 AWriteTrainables == "write" \in ACTS /\ WriteTrainables /\ Aux
 AAddToGroup(g, vn) == "group" \in ACTS /\ AddToGroup(g, vn) /\ Aux
-ARecord(s, vn) == "record" \in ACTS /\ Record(s, vn) /\ Aux
+ARecord(s, vn) == ("record" \in ACTS \/ ("record1" \in ACTS /\ s = "v" /\ vn = "all")) /\ Record(s, vn) /\ Aux
 ADeleteRecordings(vn) == "delrec" \in ACTS /\ DeleteRecordings(vn) /\ Aux
 AStimulate(vn) == "input" \in ACTS /\ Stimulate(vn) /\ Aux
 AClamp(s, vn) == "input" \in ACTS /\ Clamp(s, vn) /\ Aux
